@@ -725,15 +725,18 @@ def stopReq (s : St) : St :=
     | none => s
   | _ => s
 
-/-- `stop()`: the block of messages (a parked reply is dropped; `_discard_response` forgets its
-    request), then the processor's Deferred. -/
+/-- `stop()`: the block of messages is cancelled (a parked reply is dropped; `_discard_response`
+    forgets its request). -/
+def stopBlock (s : St) : St :=
+  if s.msgBlock then
+    { s with msgBlock := false, requestD := (if s.parked.isSome then .none else s.requestD), parked := none }
+  else s
+
+/-- `stop()`: the block of messages, then the processor's Deferred. -/
 def stopBlockProc (s : St) : St :=
-  let s := if s.msgBlock then
-      { s with msgBlock := false, requestD := (if s.parked.isSome then .none else s.requestD), parked := none }
-    else s
-  match s.proc with
-  | some g => procResult cfg inner g (some (.ext .cancelled 0)) (emit .procCancel s)
-  | none => s
+  match (stopBlock s).proc with
+  | some g => procResult cfg inner g (some (.ext .cancelled 0)) (emit .procCancel (stopBlock s))
+  | none => stopBlock s
 
 /-- `stop()`: the retry timer -/
 def stopRetry (s : St) : St :=
